@@ -38,7 +38,7 @@ def has_size_leaf(t):
         if u[0] == 'call' and u[1] in ('elen', 'replen', 'pkglen_len', 'size_of_val', 'size_of'): return True
     return False
 
-MEM_SUFFIX = ('.header.length', '.table_header.length', 'handle_offset', '.rhct_nodes', '.elements', '.number_of_resources')
+MEM_SUFFIX = ('.header.length', '.table_header.length', 'handle_offset', '.rhct_nodes', '.number_of_resources')
 MEM_ATOMS = set()     # atoms that were used as the length of an allocation (vec![x; n], resize, with_capacity)
 
 def only_memory_sizes(t):
@@ -81,6 +81,11 @@ def seg_terms_deep(segs):
 def run(ctx, rep):
     f = ctx.facts
     inv = field_invariants(f)
+    counters = monotone_counters(f)
+    rep.extra['monotone_counters'] = {k: sorted(v) for k, v in counters.items()}
+    import model as _model
+    def apply_invariants(I, v, inv):
+        _model.apply_invariants(I, v, inv); counter_atoms(v, counters, MEM_ATOMS)
     rep.extra['type_invariants'] = {k: {a: list(b) for a, b in v.items() if b[1] < 255 or b[0] > 0} for k, v in inv.items()}
     sites = {}     # key -> record
     visited_casts = set(); visited_arith = set()
@@ -100,6 +105,10 @@ def run(ctx, rep):
                 rep.info.append({'capacity-bounded cast': c['fn'], 'to': c['to'], 'term': show(c['term'])[:80]}) if len(rep.info) < 150 else None
                 continue
             if c['fits']: continue
+            if c.get('top'):
+                sites.setdefault('narrowing:%s:%s->%s:%s' % (c['fn'], c['from'], c['to'], c.get('expr', '?')), {'kind': 'narrowing', 'fn': c['fn'], 'what': '%s->%s:%s' % (c['from'], c['to'], c.get('expr', '?')),
+                                 'class': 'unguarded', 'sp': c['sp'], 'term': 'operand could not be evaluated: %s' % c['top'], 'extra': {'undecided': True}})
+                continue
             tb = int_bits_(c['to'])
             if tb is None: continue
             # byte-slicing casts inside create_pkg_length are decided per cell by C07 and by the pkg-length rule below
@@ -108,6 +117,11 @@ def run(ctx, rep):
         for a in I.arith_sites:
             bits = int_bits_(a['ty'])
             if a['fn'] == 'aml::create_pkg_length': continue
+            if a.get('top'):
+                if bits and bits < 32:
+                    sites.setdefault('overflow:%s:%s %s:%s' % (a['fn'], a['op'], a['ty'], a.get('expr', '?')), {'kind': 'overflow', 'fn': a['fn'], 'what': '%s %s:%s' % (a['op'], a['ty'], a.get('expr', '?')),
+                                     'class': 'unguarded', 'sp': a['sp'], 'term': 'operand could not be evaluated: %s' % a['top'], 'extra': {'undecided': True}})
+                continue
             flows = (a['term'] in outset) or (strip_trunc(a['term']) in outset) or not outputs
             if a['term'] in idxset and a['term'] not in _non_index_terms(outputs):
                 flows = False     # the result is only ever used as a vector index (bounds-checked by Vec)
@@ -121,7 +135,9 @@ def run(ctx, rep):
         sv = I.sym_value(norm_ty(st), 'self')
         apply_invariants(I, sv, inv)
         segs = emit_value(I, sv, st)
-        if I.tops: rep.undecided('sites', norm_ty(st), I.tops, f.bodies[d]['sp']); continue
+        if I.tops:
+            rep.info.append({'partially evaluated serialiser': norm_ty(st), 'constructs': [str(x)[:80] for x in I.tops[:3]]})
+            harvest(I, [segs] if segs else []); continue
         harvest(I, [segs])
         # explicit wrapping arithmetic whose result is emitted (only the checksum helpers may wrap, and they emit nothing)
         for tm in seg_terms_deep(segs):
@@ -131,6 +147,22 @@ def run(ctx, rep):
         # masks that discard caller bits nobody else emits
         discard_sites(note, d, segs, f.bodies[d]['sp'])
     rep.floor('serialisers scanned', n_impl, 150)
+
+    # ---- 1b. the entry points of every in-crate sink on a symbolic receiver (their own counters and offsets)
+    from evalr import SeqV as _SeqV
+    for (tr, s), meths in sorted(f.trait_impls.items()):
+        if tr != 'AmlSink': continue
+        for meth, d in sorted(meths.items()):
+            I = new_interp(f)
+            sv = I.sym_value(norm_ty(s), 'self'); apply_invariants(I, sv, inv)
+            arg = {'byte': A('b', 0, 255), 'word': A('x16', 0, 0xffff), 'dword': A('x32', 0, 0xffffffff), 'qword': A('x64', 0, (1 << 64) - 1)}.get(meth)
+            if arg is None: arg = RefV(Cell(_SeqV('u8', [('raw', ('a', 'v'), ('len', ('a', 'v')))], name='v')))
+            sym.CTX = I.st.ranges
+            try: I.sink_call(meth, [RefV(Cell(sv), True), arg], {'sp': None})
+            except Exception as ex: rep.undecided('sites', d, [('exception %r' % (ex,), f.bodies[d]['sp'])], f.bodies[d]['sp'])
+            sym.CTX = {}
+            rep.analysed.add(d)
+            harvest(I, [sv] if not I.tops else [])
 
     # ---- 2. public constructors / mutators / builders on symbolic arguments
     n_fn = 0
@@ -161,9 +193,10 @@ def run(ctx, rep):
                 rep.undecided('sites', d, [('exception %r' % (ex,), b['sp'])], b['sp']); continue
             n_fn += 1; rep.analysed.add(d)
             if I.tops:
-                # functions that take foreign generic values are analysed as far as they go
-                if not any('Dyn' in str(x[0]) or 'generic' in str(x[0]) for x in I.tops): rep.undecided('sites', d, I.tops, b['sp'])
-            harvest(I, [ret] + args)
+                # constructs outside the model do not by themselves say anything about counts and sizes: the sites whose operands
+                # they make unevaluable are reported individually by harvest(), and sites never reached by the MIR cross-check
+                rep.info.append({'partially evaluated function': d, 'constructs': [str(x)[:80] for x in I.tops[:3]]}) if len(rep.info) < 400 else None
+            harvest(I, ([ret] + args) if not I.tops else [])
     rep.floor('public functions scanned', n_fn, 250)
 
     # ---- 3. AddressSpace serialisers per width (generic receiver)
@@ -306,7 +339,6 @@ def discard_sites(note, d, segs, sp):
                 note('discard', d, '%s & %#x drops the upper bits of %s' % (show(x), u[2][1], show(x)), x, k, sp, 'usize')
 
 def guards_present(f, rep, inv):
-    from rules.C09 import _assert_before_push
     need = [('aml::Arg', 'self.0', 6), ('aml::Local', 'self.0', 7)]
     for ty, atom, mx in need:
         I = new_interp(f); sv = I.sym_value(ty, 'self'); emit_value(I, sv, ty)
